@@ -15,9 +15,12 @@ LEVEL_TEXT = ("APE.process_data is verified for all pose sequences of any length
               "angle / Frobenius distance of E_k = est_k^-1 ref_k), unequal lengths refused with nothing computed, inputs "
               "untouched; se3_inverse / relative_se3 / so3_log_angle against their contracts; zero for coinciding "
               "trajectories, invariance under a common rigid motion and swap symmetry are lemmas over the definitions "
-              "(z3 + Groebner).  The evo_ape pipeline (ape(), run()) is covered by the bounded stand-in.")
+              "(z3 + Groebner).  main_ape.ape is verified as an event-order contract for 8 option combinations (alignment with "
+              "the requested mode and n, then origin alignment, then projection of both, then the metric on the processed pair; "
+              "stored trajectories are the processed ones).  main_ape.run (loading, association, down-sampling): bounded stand-in.")
 LEVEL_NOTE = ("floats as reals; trusted: scipy rotation angle, numpy norm/dot; matrix relations proved for matrix-built "
-              "trajectories; ape()/run() wiring: bounded (in-process runs compared with the documented pipeline order)")
+              "trajectories; ape(): wiring proof with recording stand-ins for the operations (their effects are C04/C08/C14); "
+              "run(): bounded (in-process runs compared with the documented pipeline order)")
 SIDECARS = ["contracts.lie_algebra", "contracts.lemmas_lie", "contracts.geometry", "contracts.filters", "contracts.metrics",
             "contracts.lemmas_metrics",
             "contracts.overwrite", "contracts.ape_rpe_cli"]
